@@ -161,26 +161,10 @@ def r3(ctx):
     if not ok:
         ctx.violation("found/writers", ctx.where(CHECK_FILE), "Searcher.found must be incremented at exactly one place, in check_file; writers: %s" % real)
         return
-    hir = ctx.anchor_hir(CHECK_FILE)
-    top = hir["stmts"]
-    i_filter = [i for i, st in enumerate(top) if calls_to(st, "searcher::Searcher::conforms")]
-    i_inc = [i for i, st in enumerate(top) if st["k"] == "AssignOp" and "found" in render(st["l"])]
-    ok = len(i_filter) == 1 and len(i_inc) == 1 and i_filter[0] < i_inc[0]
-    rej = False
-    if ok:
-        st = top[i_filter[0]]
-        for x in walk_exprs(st):
-            if x["k"] == "If" and render(peel(x["c"], methods=False)).startswith("!") and \
-                    any(y["k"] == "Ret" for y in walk_exprs(x["t"])):
-                rej = True
-    ctx.obligation(ok and rej)
-    if not (ok and rej):
-        ctx.violation("found/gated", ctx.where(CHECK_FILE), "the row counter must be incremented only after the WHERE filter accepted the entry (filter statement with a rejecting return, then the increment)")
-    inc = [x for x in walk_exprs(hir) if x["k"] == "AssignOp" and "found" in render(x["l"])]
-    ok = len(inc) == 1 and inc[0]["op"] == "+=" and render(inc[0]["r"]) == "1"
-    ctx.obligation(ok)
-    if not ok:
-        ctx.violation("found/step", ctx.where(CHECK_FILE), "the row counter must grow by one per accepted row")
+    # the increment happens once per accepted entry, after the WHERE filter: decided by evaluation of check_file on the
+    # scenario table (rejected entry leaves found unchanged, accepted entry adds one)
+    import cfile
+    cfile.pipeline(ctx)
 
 
 def r4(ctx):
